@@ -1,12 +1,79 @@
 (** C20 — Config file and environment variables are equivalent; environment
-    wins per leaf.  Property theorems only; proofs are in C20/Proofs.v.
+    wins per leaf.  Property theorems only; proofs are in C20/*.v.
 
-    [load to_real fix3 fix4 flip prefix defaults file env] is the loader of
-    internal/config/parser; [fix3 = fix4 = false] is the tree as it is,
-    [true] selects the candidate repairs fixes/C20-F3.diff / fixes/C20-F4.diff. *)
-From HV Require Import Base.Prelude C20.Model C20.Spec C20.Proofs.
+    [load sh to_real fix3 fix4 prefix defaults file env] is the loader of
+    internal/config/parser up to the tree it hands to the decoder
+    (defaults, then file, then environment).  [sh] is the iteration order of
+    every Go map on the way (any family of permutations, [perm_fun]);
+    [fix3 = fix4 = false] is the tree as it is.  [to_real] is the YAML typing of
+    a scalar text (oracle).
+
+    [view p t] is what a tree shows at path [p]; [spec_view d f tenv p] is the
+    specification: the environment's node if it has one there, else the file's,
+    else the default's (lists grow to the longest).  [domain] is the property's
+    domain for one load: values typed as scalars, well-formed names, well-formed
+    trees, no two variables for one leaf, all sources agreeing on the shape at
+    every path, outside the shapes of the open findings C20-F3/C20-F4. *)
+From HV Require Import Base.Prelude C20.Model C20.Spec C20.Facts C20.MergeProofs C20.LoadProofs C20.Proofs.
 From Coq Require Import Permutation.
 Open Scope string_scope.
+
+Theorem C20_load_meets_spec :
+  forall sh to_real pfx d f env tenv,
+    perm_fun sh -> domain to_real pfx d f env tenv ->
+    exists t, load sh to_real false false pfx d (Some f) env = Ok t /\ Tidy (Map t) /\
+              forall p, view p (Map t) = spec_view d f tenv p.
+Proof. exact load_meets_spec_domain. Qed.
+Print Assumptions C20_load_meets_spec.
+
+Theorem C20_env_order_independent :
+  forall sh sh' to_real pfx d f env env' tenv,
+    perm_fun sh -> perm_fun sh' -> Permutation env env' ->
+    domain to_real pfx d f env tenv ->
+    exists t t', load sh to_real false false pfx d (Some f) env = Ok t /\
+                 load sh' to_real false false pfx d (Some f) env' = Ok t' /\
+                 Tidy (Map t) /\ Tidy (Map t') /\
+                 forall p, view p (Map t) = view p (Map t').
+Proof. exact env_order_independent. Qed.
+Print Assumptions C20_env_order_independent.
+
+Theorem C20_env_wins_per_leaf :
+  forall sh to_real pfx d f env tenv,
+    perm_fun sh -> domain to_real pfx d f env tenv ->
+    exists t, load sh to_real false false pfx d (Some f) env = Ok t /\
+              forall e, In e tenv -> view (fst e) (Map t) = NLeaf (snd e).
+Proof. exact env_wins_per_leaf. Qed.
+Print Assumptions C20_env_wins_per_leaf.
+
+Theorem C20_defaults_fill :
+  forall sh to_real pfx d f env tenv,
+    perm_fun sh -> domain to_real pfx d f env tenv ->
+    exists t, load sh to_real false false pfx d (Some f) env = Ok t /\
+              forall p, env_view tenv p = NNone ->
+                        view p (Map t) = njoin (view p (Map d)) (view p (Map f)) /\
+                        (view p (Map f) = NNone -> view p (Map t) = view p (Map d)).
+Proof. exact defaults_fill. Qed.
+Print Assumptions C20_defaults_fill.
+
+Theorem C20_file_env_equivalent :
+  forall sh sh' to_real pfx d c f env tenv,
+    perm_fun sh -> perm_fun sh' ->
+    domain to_real pfx d f env tenv -> domain to_real pfx d c [] [] ->
+    split_of c f tenv ->
+    exists t t', load sh to_real false false pfx d (Some f) env = Ok t /\
+                 load sh' to_real false false pfx d (Some c) [] = Ok t' /\
+                 Tidy (Map t) /\ Tidy (Map t') /\
+                 forall p, view p (Map t) = view p (Map t').
+Proof. exact file_env_equivalent. Qed.
+Print Assumptions C20_file_env_equivalent.
+
+Theorem C20_merge_later_wins_no_panic :
+  forall sh, perm_fun sh -> forall cl dest src,
+    dest <> Nil -> src <> Nil -> Tidy dest -> Tidy src -> compat dest src ->
+    exists r, merge_with sh cl dest src = Ok r /\ r <> Nil /\ Tidy r /\
+              forall p, view p r = njoin (view p dest) (view p src).
+Proof. exact merge_with_view. Qed.
+Print Assumptions C20_merge_later_wins_no_panic.
 
 Theorem C20_F3_refuted :
   exists env env' p,
